@@ -7,8 +7,11 @@ mkdir -p build evidence replays
 # T-tied models are regenerated from /repo before the Coq build
 python3 translators/rs_kernel2coq.py /repo/datafusion/physical-plan/src/repartition/mod.rs coq/Gen/StrengthReduced.v || true
 python3 -c "import sys; sys.path.insert(0,'lib'); import vlib; vlib.coq_makefile()"
-(cd coq && timeout 3000 make -j16 2>&1 | tail -5)
-rm -f harness/Cargo.lock
-cp /repo/Cargo.lock harness/Cargo.lock
-(cd harness && timeout 7000 cargo build --offline --workspace 2>&1 | tail -3)
+(cd coq && timeout 3000 make -j16 -k 2>&1 | tail -5)
+for d in harness/h_*/; do
+  [ -f "$d/Cargo.toml" ] || continue
+  grep -q '^\[workspace\]' "$d/Cargo.toml" || continue
+  rm -f "$d/Cargo.lock"; cp /repo/Cargo.lock "$d/Cargo.lock"
+  (cd "$d" && timeout 7000 cargo build --offline 2>&1 | tail -2)
+done
 echo "setup done"
